@@ -128,7 +128,8 @@ class HdsSuite(ReaderSuite):
 
     def generate(self, rng, tier):
         n = 1500 if tier == "thorough" else 150
-        return [gen_case(rng, tier) for _ in range(n)]
+        from harness.readers import with_twins
+        return with_twins([gen_case(rng, tier) for _ in range(n)], rng)
 
     def build_files(self, case):
         if case["kind"] == "plain":
